@@ -314,7 +314,7 @@ class TensorEval:
         if isinstance(e, ast.Name):
             if t in ('None',):
                 return None
-            if t in self.PYTYPES and self.numeric:
+            if t in self.PYTYPES:
                 return self.PYTYPES[t]
             r_ = self.prog.resolve(f.mod, e) if self.prog is not None else None
             if r_ is not None and r_[0] == 'func':
@@ -463,7 +463,7 @@ class TensorEval:
         if isinstance(e, ast.Subscript):
             v = self.ev(f, e.value, env)
             i = self.index(f, e.slice, env)
-            if isinstance(v, (tuple, list)) and isinstance(i, (int, slice)):
+            if isinstance(v, (tuple, list, range)) and isinstance(i, (int, slice, np.integer)):
                 return v[i]
             if isinstance(v, np.ndarray):
                 return v[i]
@@ -555,7 +555,7 @@ class TensorEval:
                     return recv_.get(args[0], args[1] if len(args) > 1 else None)
                 except TypeError:
                     raise Unknown('unhashable dictionary key')
-        if isinstance(fn, ast.Name) and fn.id == 'type' and fn.id not in env and len(args) == 1 and self.numeric:
+        if isinstance(fn, ast.Name) and fn.id == 'type' and fn.id not in env and len(args) == 1:
             if isinstance(args[0], (Q, EnumMember, FnVal)) or (isinstance(args[0], np.ndarray) and args[0].dtype == object):
                 raise Unknown('type of a symbolic value')
             return type(args[0])
